@@ -56,7 +56,7 @@ class Elf:
                         "type": info & 15, "bind": info >> 4, "vis": other & 3, "_off": o})
         return out
 
-    def patch_symbol(self, i, info=None, other=None):
+    def patch_symbol(self, i, info=None, other=None, value=None, size=None):
         s = self.symtab_section()
         o = s["off"] + i * s["entsize"]
         io = o + 4 if self.is64 else o + 12
@@ -64,6 +64,10 @@ class Elf:
             self.data[io] = info
         if other is not None:
             self.data[io + 1] = other
+        if value is not None:
+            struct.pack_into(self.end + ("Q" if self.is64 else "I"), self.data, o + 8 if self.is64 else o + 4, value & ((1 << 64) - 1 if self.is64 else 0xffffffff))
+        if size is not None:
+            struct.pack_into(self.end + ("Q" if self.is64 else "I"), self.data, o + 16 if self.is64 else o + 8, size & ((1 << 64) - 1 if self.is64 else 0xffffffff))
 
     def set_machine(self, m):
         struct.pack_into(self.end + "H", self.data, 18, m)
